@@ -112,7 +112,8 @@ def install():
     # ---- AEAD
     def encrypt(cls, key, nonce, data, aad):
         ents = _entries()
-        tok = _token('C', len(ents), 24)
+        n = len(data) if isinstance(data, (bytes, bytearray)) else int(Ctx.cur.concretize(blen(data).e, why='plaintext length')) if hasattr(blen(data), 'e') else int(blen(data))
+        tok = _token('C', len(ents), n + 16)
         ents.append(dict(kind='enc', key=_keybytes(key), nonce=bytes(nonce), aad=aad, data=data, token=tok))
         return tok
 
